@@ -9,6 +9,7 @@ from fractions import Fraction as Fr
 
 from mc.engine import hbfs, par
 from mc.engine.report import Violation
+from mc.engine.seams import Canon
 
 import ECAgent.Core as Core
 import ECAgent.Environments as Envs
@@ -32,8 +33,8 @@ META = {
     'bounds': {'quick': 'one agent: fixpoint for every configuration; two agents: depth 3 on 6 configurations',
                'thorough': 'wider extents, quarter steps, two agents depth 4 on 12 configurations'},
     'assumptions': ['coordinates on zero-extent axes are kept at 0 by the alphabet and nothing is asserted about them',
-                    'canonical state = residency and position of each agent (specialised hash: the only fields '
-                    'these operations may touch); extents are 0 or >= 1 as the quantifier says'],
+                    'canonical state = generic full-field hash of model, world and agents (cells table dropped); extents '
+                    'are 0 or >= 1 as the quantifier says'],
 }
 
 
@@ -81,6 +82,7 @@ class Harness:
         d3 = list(dims) + [0] * (3 - len(dims))
         self.d3 = d3
         self._menu = self._build_menu()
+        self.cn = Canon(drop={('DiscreteWorld', 'cells'), ('LineWorld', 'cells'), ('GridWorld', 'cells')})
 
     # ------------------------------------------------------------------------------------------------
     def _build_menu(self):
@@ -295,12 +297,10 @@ class Harness:
                 self._expect_at(w, k, w.pos[k], 'state')
 
     def canon(self, w):
-        out = []
-        for k in self.agents:
-            p = self._read(w, k)
-            out.append((w.env.get_agent(k) is not None, None if p is None else tuple(float(v) for v in p),
-                        tuple(t.__name__ for t in w.agents[k].components)))
-        return tuple(out)
+        # generic full-field canon (not just positions): a cache, a stale reference or any other hidden state a change
+        # to the library introduces makes states distinct instead of being merged away.  The cells table is dropped:
+        # no operation of this alphabet touches cell components.
+        return self.cn(w.model, [w.agents[k] for k in self.agents])
 
     def refstate(self, w):
         return tuple(None if w.pos[k] is None else tuple((v.numerator, v.denominator) for v in w.pos[k])
